@@ -18,6 +18,7 @@ static std::map<long, Slot> g_slots;
 static long g_next_id = 1;
 static int g_out_fd = -1;   // protocol replies
 static int g_cap_fd = -1;   // memfd receiving the script's stdout
+static bool g_use_espec = false;  // evaluate with exception_specification<int, const std::out_of_range &>
 
 static std::map<std::string, Command> &commands() {
   static std::map<std::string, Command> c;
@@ -268,6 +269,7 @@ long new_engine(const mj::Value &opts) {
     chai->add(chaiscript::var(std::ref(h->counter)), "counter");
     chai->add(chaiscript::var(std::ref(h->sink)), "sink");
     chai->add(chaiscript::fun([h](int v) { h->sink.push_back(v); }), "sink_push");
+    chai->add(chaiscript::fun([](const std::string &kind) -> int { throw_kind(kind); return 0; }), "thr");
     chai->add(chaiscript::fun([h, chai](const std::string &tag) -> int {
                 ++h->cb_total;
                 ++h->cb_calls[tag];
@@ -288,7 +290,9 @@ mj::Value eval_on(Slot &s, const std::string &script, const std::string &fname, 
   mj::Value reply = mj::Value::object();
   chaiscript::verif::lookup_cache_off().store(cache_off);
   const auto hits0 = chaiscript::verif::lookup_fast_hits().load();
-  guarded(reply, [&]() { return s.chai->eval(script, chaiscript::Exception_Handler(), fname); });
+  guarded(reply, [&]() {
+    return s.chai->eval(script, g_use_espec ? chaiscript::exception_specification<int, const std::out_of_range &>() : chaiscript::Exception_Handler(), fname);
+  });
   chaiscript::verif::lookup_cache_off().store(false);
   reply.set("fast_hits", static_cast<long>(chaiscript::verif::lookup_fast_hits().load() - hits0));
   reply.set("out", take_stdout());
@@ -329,6 +333,7 @@ static mj::Value cmd_eval(const mj::Value &rq) {
 }
 // fresh engine(s), one script, everything destroyed afterwards: {"engines":[{"opt":true,"cache_off":false},...], "script":...}
 static mj::Value cmd_run(const mj::Value &rq) {
+  struct Espec { explicit Espec(bool v) { g_use_espec = v; } ~Espec() { g_use_espec = false; } } espec_guard(rq.at("espec").boolean(false));
   mj::Value out = mj::Value::object();
   mj::Value results = mj::Value::array();
   for (const auto &e : rq.at("engines").a) {
